@@ -26,7 +26,8 @@ pub fn snapshot_before_recovery(ctx: &Rc<RunCtx>, power_loss: bool) {
             }
         }
     }
-    *ctx.crash_victims.borrow_mut() = victims;
+    // victims of an earlier crash of the same run stay victims
+    ctx.crash_victims.borrow_mut().extend(victims);
     // acknowledged operations (their records must be served or recoverable)
     let acked: BTreeSet<u32> = ctx.history.borrow().iter().filter(|h| matches!(h.result, OpResult::Ok | OpResult::OkCount(_))).map(|h| h.uid).collect();
     *ctx.acked_before_crash.borrow_mut() = acked;
